@@ -233,14 +233,35 @@ def c10_r5(ctx):
     nx = facts.method(LEADER, 'next', trait=OP)
     sends = q.calls(nx, 'renoir::network::network_channel::NetworkSender::<Out>::send')
     ctx.inst('IterationLeader::next|feedback', {'send sites': [t['at'] for _, t in sends]})
-    if not sends or not any(bi in nx.reachable_from(s) for bi, _ in sends for s in nx.succ(bi)):
+    # adapter form of the same loop: `self.feedback_senders.iter().for_each(|s| s.send(..))`
+    fe_ok = False
+    fe_site = None
+    for bi, t in nx.calls():
+        if (t['callee'].get('path') or '') != 'std::iter::Iterator::for_each':
+            continue
+        chain = render(strip(sym.operand(t['args'][0]))) if False else render(strip(q.sym(facts, nx).operand(t['args'][0])))
+        for a in t['args'][1:]:
+            if a[0] == 'k' or not is_local(a[1]):
+                continue
+            cd = nx.locals[a[1][0]].get('closure')
+            g = facts.fn(cd, required=False) if cd else None
+            if g is not None and q.calls(g, 'renoir::network::network_channel::NetworkSender::<Out>::send') and 'feedback_senders' in chain \
+                    and not any(x in chain for x in ('::take(', '::skip(', '::filter(', '::step_by(', '::take_while(', '::skip_while(')):
+                fe_ok = True
+                fe_site = (bi, t)
+                ctx.inst('IterationLeader::next|feedback(for_each)', {'at': t['at'], 'over': chain[:100]})
+    if not fe_ok and (not sends or not any(bi in nx.reachable_from(s) for bi, _ in sends for s in nx.succ(bi))):
         ctx.viol('%s|feedback-not-broadcast' % nx.path, nx.at, 'the leader does not send the new state to every feedback sender (loop over feedback_senders)', None)
     else:
         # must-pass-through: the send loop post-dominates the point where the round is counted (iteration_index += 1)
         incs = [bi for bi, blk in enumerate(nx.blocks) if not blk['cleanup'] for s_ in blk['s'] if s_['k'] == 'assign' and s_['rv']['r'] == 'bin'
                 and s_['rv']['op'] in ('AddWithOverflow', 'Add') and 'iteration_index' in render(strip(q.sym(facts, nx).rvalue(s_['rv'])))]
-        heads = [bi for bi, t in nx.calls() if (t['callee'].get('path') or '') == 'std::iter::Iterator::next'
-                 and sends[0][0] in nx.reachable_from(bi) and bi in nx.reachable_from(sends[0][0])]
+        if fe_site is not None and not sends:
+            heads = [fe_site[0]]
+            sends = [fe_site]
+        else:
+            heads = [bi for bi, t in nx.calls() if (t['callee'].get('path') or '') == 'std::iter::Iterator::next'
+                     and sends[0][0] in nx.reachable_from(bi) and bi in nx.reachable_from(sends[0][0])]
         okpd = bool(incs) and bool(heads) and any(nx.post_dominates(h, incs[0]) for h in heads)
         ctx.inst('IterationLeader::next|feedback on every round', {'round counted at block': incs[:1], 'send loop head': heads[:1], 'post-dominates': okpd})
         if not okpd:
